@@ -26,6 +26,7 @@ CONSTANTS
   MaxCalls = {MaxCalls}
 PROPERTY QueriesAreSideEffectFree
 PROPERTY StoreOnlyGrows
+PROPERTY SetEasyIsLocal
 CHECK_DEADLOCK FALSE
 """
 TIERS = {"quick": dict(MaxCalls=1, nsim=60, depth=9), "thorough": dict(MaxCalls=2, nsim=600, depth=14)}
@@ -173,6 +174,8 @@ def steps_of(beh):
         last = stp["state"]["last"]
         if last["op"] == "swap":
             out.append(["SwapCall", last["h"], "", [], []])
+        elif last["op"] == "set_easy":
+            out.append(["SetEasy", last["h"], "", [], [int(x) for x in last["arg"]]])
         else:
             out.append(["Query", last["h"], last["op"], list(last["shape"]),
                         [list(a) if isinstance(a, tuple) else a for a in last["arg"]]])
@@ -206,6 +209,17 @@ def replay_behaviour(o0, steps_in, cid, ids, seed):
                 e["exc"] = sd.exc_str(ex)
                 break
             steps.append(["SwapCall", h])
+        elif act == "SetEasy":
+            h, (ep, en) = h_, arg_
+            e = ev("SetEasy", h=h, ep=ep, en=en, post=dict(sd.EMPTY_POST))
+            try:
+                real[h - 1].nb_easy_pos, real[h - 1].nb_easy_neg = ep, en
+                objs[h - 1] = dict(objs[h - 1], ep=ep, en=en)
+                e["post"] = sd.alpha_obj(real[h - 1], sd.inv_map(g))
+            except Exception as ex:  # noqa
+                e["exc"] = sd.exc_str(ex)
+                break
+            steps.append(["SetEasy", h, ep, en])
         elif act == "Query":
             h, op, shape, arg = args
             method = METHODS[(cid + k) % 3]
